@@ -23,6 +23,7 @@ import (
 	"net"
 	"os"
 	"os/exec"
+	"runtime"
 	"strconv"
 	"strings"
 	"syscall"
@@ -326,13 +327,23 @@ func c18Build(items []c18item, srvKinds, upKinds []string, how int, upAddr func(
 				rc.Domain = "nosuchset"
 			}
 			cfg.Rules = append(cfg.Rules, rc)
-		case 'c':
+		case 'M': // memory cache (otter: owns goroutines)
+			cfg.Cache.MemSize = 1 << 20
+		case 'R': // redis backend; there is no redis here: it can only fail (an address that refuses)
+			cfg.Cache.Redis = "redis://127.0.0.1:" + strconv.Itoa(c18FreePort(false))
+		case 'I': // ip marker file
 			if it.ok {
-				cfg.Cache.MemSize = 1 << 20
+				f, err := os.CreateTemp("", "c18ipm")
+				if err == nil {
+					f.WriteString("10.0.0.0,10.255.255.255,a\n192.0.2.0,192.0.2.255,b\n")
+					f.Close()
+					cfg.Cache.IpMarker = f.Name()
+					b.tmp = append(b.tmp, f.Name())
+				}
 			} else {
-				cfg.Cache.MemSize = (how % 2) << 20
 				cfg.Cache.IpMarker = "/nonexistent/c18/ipmarker.txt"
 			}
+		case 'c': // `r.cache = cache`: nothing to configure
 		case 's':
 			kind := "udp"
 			if si < len(srvKinds) {
@@ -401,8 +412,17 @@ func c18StartupRun(c string) string {
 	})
 }
 
+// c18OtterGoroutines: the `process` goroutines of otter caches (one per memory cache; it ends as soon as the
+// cache is closed — its `cleanup` sibling only notices at its next one-second tick, so it is not counted).
+func c18OtterGoroutines() int {
+	buf := make([]byte, 1<<22)
+	n := runtime.Stack(buf, true)
+	return 2 * strings.Count(string(buf[:n]), "otter/internal/core.(*Cache[...]).process(")
+}
+
 func c18StartupOnce(m map[string]string, items []c18item) (string, bool) {
 	base := c18Baseline()
+	gbase := c18OtterGoroutines()
 	b := c18Build(items, c18List(m["srv"]), c18List(m["ups"]), atoi(m["how"]), nil)
 	defer b.cleanup()
 	blocked := len(b.blockers) > 0
@@ -436,6 +456,12 @@ func c18StartupOnce(m map[string]string, items []c18item) (string, bool) {
 		}
 	}
 	leak := c18Leak(base)
+	// the memory cache owns goroutines instead of a socket
+	g := 0
+	c18Wait(func() bool { g = c18OtterGoroutines() - gbase; return g <= 0 })
+	if g > 0 {
+		leak += (g + 1) / 2
+	}
 	out := fmt.Sprintf("res=%s busy=%s leak=%d", res, c18Ids(busy), leak)
 	if detail != "" {
 		out += " ## " + strings.Map(func(r rune) rune {
@@ -472,9 +498,17 @@ func c18StartupGen(r *rand.Rand, thorough bool, emit func(c, cat string)) {
 		for k := r.Intn(3); k > 0; k-- {
 			items = append(items, "r+0")
 		}
+		// initCache: memory cache, redis backend (can only fail here), ip marker; then `r.cache = cache`
 		if r.Intn(2) == 0 {
-			items = append(items, "c+0")
+			items = append(items, "M+1")
 		}
+		if r.Intn(4) == 0 {
+			items = append(items, "R-1")
+		}
+		if r.Intn(3) == 0 {
+			items = append(items, "I+0")
+		}
+		items = append(items, "c+0")
 		for k := 1 + r.Intn(4); k > 0; k-- {
 			kinds := srvKinds
 			if !thorough || r.Intn(3) > 0 {
@@ -484,20 +518,28 @@ func c18StartupGen(r *rand.Rand, thorough bool, emit func(c, cat string)) {
 			items = append(items, "s+1")
 		}
 		cat := "all-start"
+		flip := func(p int) bool { // the memory cache and the assignment of r.cache cannot fail
+			if items[p][0] == 'M' || items[p][0] == 'c' {
+				return false
+			}
+			items[p] = items[p][:1] + "-" + items[p][2:]
+			return true
+		}
 		if i%5 != 0 {
 			// a failing item at a uniformly chosen position (biased to listeners), sometimes a second one behind it
 			pos := r.Intn(len(items))
-			if r.Intn(2) == 0 {
+			if r.Intn(2) == 0 || !flip(pos) {
 				pos = len(items) - 1 - r.Intn(len(srv))
+				flip(pos)
 			}
-			items[pos] = items[pos][:1] + "-" + items[pos][2:]
-			cat = "fail-" + items[pos][:1]
 			if r.Intn(4) == 0 {
-				p2 := r.Intn(len(items))
-				items[p2] = items[p2][:1] + "-" + items[p2][2:]
-				if p2 < pos {
-					cat = "fail-" + items[p2][:1]
-				}
+				flip(r.Intn(len(items)))
+			}
+		}
+		for _, it := range items {
+			if it[1] == '-' {
+				cat = "fail-" + it[:1]
+				break
 			}
 		}
 		c := "it=" + strings.Join(items, ",") + " srv=" + strings.Join(srv, ",")
